@@ -105,6 +105,28 @@ def W.write (m : Mem) (w : W) (p : List Nat) : Mem × W :=
   if stop then (m, w) else
   w.stage3 m p
 
+/-- `Write(p)` during which the `j`-th `WriteAt` this call makes (counting from 0) fails: the call returns the error,
+the failing `WriteAt` and everything after it does not happen, and the upload is abandoned (no further `Write`, no
+`flush`): `none`. What remains is what the call did before - in particular the bytes already copied into the shared
+first-sector image. When the call makes fewer `WriteAt`s it simply succeeds (`some` the writer, as `W.write`). -/
+def W.writeFail (m : Mem) (w : W) (p : List Nat) (j : Nat) : Mem × Option W :=
+  let r1 := w.stage1 m p
+  let wrote1 := w.firstImg.isSome && !r1.2.2.2     -- step 1 completed the first sector: a `WriteAt`
+  if wrote1 && j == 0 then ({ m with img := r1.1.img }, none)
+  else if r1.2.2.2 then (r1.1, some r1.2.1)
+  else
+    let j := if wrote1 then j - 1 else j
+    let r2 := r1.2.1.stage2 r1.1 r1.2.2.1
+    let wrote2 := decide (r1.2.1.part.length > 0) && !r2.2.2.2   -- step 2 completed a private sector: a `WriteAt`
+    if wrote2 && j == 0 then (r1.1, none)
+    else if r2.2.2.2 then (r2.1, some r2.2.1)
+    else
+      let j := if wrote2 then j - 1 else j
+      if decide (r2.2.2.1.length / m.S > 0) && j == 0 then (r2.1, none)   -- the run of whole sectors: a `WriteAt`
+      else
+        let r3 := r2.2.1.stage3 r2.1 r2.2.2.1
+        (r3.1, some r3.2)
+
 /-- `flush()`. -/
 def W.flush (m : Mem) (w : W) : Mem :=
   match w.lastImg with
@@ -126,6 +148,7 @@ structure Wr where
   data : List Nat
   c : Nat := 0
   flushed : Bool := false
+  dead : Bool := false                 -- a `WriteAt` of this writer failed: the upload was abandoned
 
 structure Sys where
   m : Mem
@@ -139,6 +162,7 @@ of its data (any chunking, a writer may stop at any point), `flush()` of writer 
 inductive Ev where
   | alloc
   | write (i n : Nat)
+  | writeFail (i n k : Nat)
   | flush (i : Nat)
 
 def Sys.step (objs : List (List Nat)) (s : Sys) : Ev → Sys
@@ -149,15 +173,24 @@ def Sys.step (objs : List (List Nat)) (s : Sys) : Ev → Sys
   | .write i n =>
     match s.ws[i]? with
     | some r =>
-      if r.flushed then s else
+      if r.flushed ∨ r.dead then s else
       let p := (r.data.drop r.c).take n
       let (m', w') := r.w.write s.m p
       { s with m := m', ws := s.ws.set i { r with w := w', c := r.c + p.length } }
     | none => s
+  | .writeFail i n k =>
+    match s.ws[i]? with
+    | some r =>
+      if r.flushed ∨ r.dead then s else
+      let p := (r.data.drop r.c).take n
+      match r.w.writeFail s.m p k with
+      | (m', some w') => { s with m := m', ws := s.ws.set i { r with w := w', c := r.c + p.length } }
+      | (m', none) => { s with m := m', ws := s.ws.set i { r with dead := true } }
+    | none => s
   | .flush i =>
     match s.ws[i]? with
     | some r =>
-      if r.flushed ∨ r.c ≠ r.data.length then s else
+      if r.flushed ∨ r.dead ∨ r.c ≠ r.data.length then s else
       { s with m := r.w.flush s.m, ws := s.ws.set i { r with flushed := true } }
     | none => s
 
